@@ -359,7 +359,7 @@ def gen_config(rng, prop, tier):
         km = {'kind': kind, 'arg': arg, 'flat': rng.chance(0.6), 'typed': rng.chance(0.25),
               'sentinel': rng.chance(0.3)}
         if kind == 'pickle' and arg in ('dill', 'pickle') and rng.chance(0.4):
-            km['proto'] = rng.choice([2, 3])      # an extra encoder option (changes the key bytes)
+            km['proto'] = rng.choice([0, 1, 2, 3])      # an extra encoder option (changes the key bytes)
         if kind == 'raw':
             km['flat'] = True     # the non-flat raw key (args, kwds-dict) is never hashable
         if not km['flat']:
